@@ -214,6 +214,23 @@ def check_sparse(ck, prog):
     ck.ob("C18-SPARSE", "hole-must-precede", bool(gp) and path is None, common.where(w),
           "with a pending hole, io_write_buf() is reachable only through the lseek()" if path is None else
           "real data can be written with a pending hole not yet skipped", key="SPARSE:hole-must")
+    # the zero-length write that ends a stream must not materialise (and thereby forget) a pending hole:
+    # io_close() needs dest_pending_sparse > 0 to create the trailing hole
+    gz = guard.find_cmp(w, "var:size", "const:0")
+    cutz = set()
+    for x in gz:
+        cutz.add((x.bid, "F" if x.pass_label == "T" else "T"))       # the size != 0 edge
+    for x in g2:
+        cutz.add((x.bid, x.pass_label))                               # the size == IO_BUFFER_SIZE edge
+    pathz, hitz = guard.cut_reach(pg, [n for n in pg.nodes if n[0] == w.entry], cutz,
+                                  lambda n: "lseek" if n[0] in lsb else None)
+    okz = bool(gz) and pathz is None
+    ck.ob("C18-SPARSE", "empty-write-keeps-hole", okz, common.where(w),
+          "io_write(size == 0) returns before the pending hole is skipped with lseek(), so io_close() still sees "
+          "dest_pending_sparse > 0 and creates the trailing hole" if okz else
+          "io_write(): a zero-length write (end of the stream) reaches lseek(dest_pending_sparse) and clears the pending "
+          "amount: io_close() then does not write the last byte and the file ends before its trailing zeros",
+          key="SPARSE:empty-write")
     c = prog.fn("io_close", FIO, target="xz")
     lsc = call_blocks(c, "lseek")
     okc = bool(lsc) and ex.show(lsc[0][2]["args"][1]) == "pair->dest_pending_sparse - 1" and \
@@ -244,6 +261,34 @@ def check_sparse(ck, prog):
     ck.ob("C18-SPARSE", "append-restored", rest, common.where(cd),
           "io_close_dest restores the original stdout flags (O_APPEND)", key="SPARSE:append")
     ck.floor("C18-SPARSE", 8)
+
+
+XZ_DECODER_FLAGS = {0x02: "LZMA_TELL_UNSUPPORTED_CHECK", 0x08: "LZMA_CONCATENATED", 0x10: "LZMA_IGNORE_CHECK"}
+
+
+def check_decflags(ck, prog):
+    """xz must hand over everything the library decodes before an error (xzdec and `xz -dc` agree byte for byte up to the
+    error): it must not ask the threaded decoder to fail fast, and it asks for exactly the documented flags."""
+    ck.rule("C18-DECFLAGS", "decoder flags set by xz are exactly TELL_UNSUPPORTED_CHECK, CONCATENATED, IGNORE_CHECK")
+    f = prog.fn("coder_init", "coder.c", target="xz")
+    ck.saw_function(f)
+    got = {}
+    for b, i, e in f.iter_elems():
+        for (l, r, op, node) in ex.writes(e):
+            ls = ex.strip(l)
+            if ls is not None and ls.get("k") == "var" and ls["n"] == "flags" and op == "|=":
+                v = ex.const_val(r)
+                got[v] = ex.line(node)
+    extra = sorted(v for v in got if v not in XZ_DECODER_FLAGS)
+    missing = sorted(v for v in XZ_DECODER_FLAGS if v not in got)
+    ck.ob("C18-DECFLAGS", "coder_init", not extra and not missing, common.where(f),
+          "xz coder_init: decoder flags ORed in: %s" % sorted(XZ_DECODER_FLAGS[v] for v in got if v in XZ_DECODER_FLAGS)
+          if not extra and not missing else
+          "xz coder_init(): decoder flags %s are set in addition to / instead of the documented ones (missing: %s); "
+          "LZMA_FAIL_FAST (0x20) in particular makes the threaded decoder drop output that precedes an error, so "
+          "`xz -d < damaged` delivers less than xzdec" % ([hex(v) if v is not None else "?" for v in extra],
+                                                           [XZ_DECODER_FLAGS[v] for v in missing]),
+          key="DECFLAGS:coder_init")
 
 
 def check_fmt(ck, prog):
@@ -325,4 +370,5 @@ def run(ck):
     ck.floor("C18-WBF", 5)
     ck.floor("C18-EXIT", 14)
     check_sparse(ck, prog)
+    check_decflags(ck, prog)
     check_fmt(ck, prog)
